@@ -17,7 +17,7 @@
 (***************************************************************************)
 EXTENDS Integers, Sequences, FiniteSets, TLC, Json
 
-CONSTANTS Fams,        \* subset of {"csvc","nusvc","oneclass","esvr","nusvr","f32","offset","poly1"}
+CONSTANTS Fams,        \* subset of {"csvc","nusvc","oneclass","esvr","nusvr","f32","offset","poly1","f32nl","ocfrac"}
           MinSmall, MaxSmall,
           Seeds, MedSizes,
           Lite         \* TRUE: reduced parameter grids for the small families (quick tier)
@@ -203,7 +203,28 @@ Poly1Cases ==
   \cup {Mk("oneclass", [i \in DOMAIN s |-> <<Xo[s[i]]>>], [i \in DOMAIN s |-> 1], 1, "p1c2", One, One, <<1, 2>>, One, One, shr, "f32", FALSE) :
           s \in Sorted(3, MinSmall + 1), shr \in BOOLEAN}
 
+(* -------------------------------------------- f32 x non-linear kernel x unequal class weights           *)
+(* 2-D sets on the 5 x 5 grid -2..2 (16..32 points, so many duplicated points, some with conflicting      *)
+(* labels), small unequal class weights: the paired clipping of the f32 SMO update leaves coefficient     *)
+(* residues of a few 1e-9, which the support-vector selection and nsupport must treat alike.              *)
+DupX(s, n) == [i \in 1..n |-> << ((s * 5 + i * 3 + ((i * i) % 11)) % 5) - 2, ((s * 3 + i * 5 + ((i * i * i) % 13)) % 5) - 2 >>]
+DupY(s, n) == LET X == DupX(s, n) IN [i \in 1..n |-> IF X[i][1] + X[i][2] + Noise(s, i) > 0 THEN 1 ELSE 0]
+F32NonLinear ==
+  {k \in {Mk("csvc", DupX(s, n), DupY(s, n), 2, kern, cw[1], cw[2], One, One, One, shr, "f32", ~shr) :
+            s \in 1..(IF Lite THEN 8 ELSE 16), n \in {16, 24, 32}, kern \in {"rbf5", "poly2"},
+            cw \in {<< <<1, 20>>, <<1, 5>> >>, << <<1, 5>>, <<1, 20>> >>}, shr \in BOOLEAN} :
+     Npos(k.inp.y) > 0 /\ Nneg(k.inp.y) > 0}
+  \cup {Mk("esvr", DupX(s, 16), MedR(s, 16), 2, kern, One, One, One, <<1, 5>>, <<1, 2>>, shr, "f32", FALSE) :
+          s \in 1..4, kern \in {"rbf5", "poly2"}, shr \in BOOLEAN}
+
+(* -------------------------------------------- one-class with a fractional budget nu * n, frac >= 1/2    *)
+OneclassFrac ==
+  {Mk("oneclass", DupX(s, n), [i \in 1..n |-> 1], 2, kern, One, One, nu, One, One, shr, "f64", FALSE) :
+     s \in 1..2, n \in {5, 12, 25}, nu \in {<<3, 10>>, <<7, 10>>}, kern \in {"lin", "rbf5", "p1c2"}, shr \in BOOLEAN}
+
 All ==
+  (IF "f32nl" \in Fams THEN F32NonLinear ELSE {}) \cup
+  (IF "ocfrac" \in Fams THEN OneclassFrac ELSE {}) \cup
   (IF "poly1" \in Fams THEN Poly1Cases ELSE {}) \cup
   (IF "offset" \in Fams THEN OffsetCases ELSE {}) \cup
   (IF "csvc" \in Fams THEN CsvcSmall \cup {k \in CsvcMed : Npos(k.inp.y) > 0 /\ Nneg(k.inp.y) > 0} ELSE {}) \cup
